@@ -1,6 +1,6 @@
 """C11 — emitted C string literals denote exactly the original bytes: escape table, literal splitting, character-array
 tokens and character constants, each folded from the source and read back with a reference C literal reader."""
-from ..rules import pC11
+from ..rules import pC11, sC11
 
 ID = 'C11'
 TECHNIQUE = ('finite-domain folding of the escaping functions of StringEncoding.py / Code._split_characters on their ASTs (checker-side constant folder; '
@@ -63,4 +63,4 @@ def run(ctx):
     # C11-SPLIT and C11-TOK (pC11.rule_split / rule_char_tokens) interpret split_string_literal / _split_characters on generated
     # boundary inputs.  That is bounded testing through an interpreter rather than a static decision, so they are not part of
     # the registered check (see DESIGN.md section 9); the exhaustive per-byte tables and the source rule remain.
-    return [esc, pC11.rule_escape_char(ctx), pC11.rule_raw_literals(ctx)]
+    return [esc, pC11.rule_escape_char(ctx), pC11.rule_raw_literals(ctx), sC11.rule_cut(ctx)]
